@@ -47,7 +47,8 @@ static long ncases(int tier) { if (getenv("VERIF_VALGRIND")) return 2000; return
 typedef struct { int live; size_t n; double v[MAXN]; } sh_dv;
 typedef struct { int live; size_t n; size_t v[MAXN]; } sh_uv;
 typedef struct { int live; size_t n; int v[MAXN]; } sh_iv;
-typedef struct { int live; size_t n; char v[MAXN][40]; } sh_sv;
+#define SVLEN 352           /* "%f" of the largest double has 317 characters */
+typedef struct { int live; size_t n; char v[MAXN][SVLEN]; } sh_sv;
 typedef struct { int live; size_t r, c; double v[MAXN][MAXN]; } sh_mx;
 #define MAXORD 5
 #define TDIM 10
@@ -258,7 +259,7 @@ static void model_trim(const char *in, char *out)
   memcpy(out, in + a, b - a); out[b - a] = 0;
 }
 /* SplitString by its definition: the trimmed text cut at every character of sep, empty pieces dropped; returns the token count */
-static size_t model_split(const char *in, const char *sep, char tok[][40], size_t maxtok)
+static size_t model_split(const char *in, const char *sep, char tok[][SVLEN], size_t maxtok)
 {
   char t[80]; size_t n = 0, i, len = 0;
   model_trim(in, t);
@@ -378,7 +379,7 @@ static void op_strvector(vh_ctx *c)
 {
   size_t k = (size_t)vh_int(c, 0, POOL - 1), i;
   sh_sv *s = &SSV[k];
-  char buf[40];
+  char buf[SVLEN];
   if (!s->live) {
     if (vh_coin(c, 0.5)) { size_t n = (size_t)vh_int(c, 0, 4); OP("S%zu=New(%zu)", k, n); NewStrVector(&SV[k], n); s->n = n; for (i = 0; i < n; i++) s->v[i][0] = 0; }
     else { OP("S%zu=init", k); initStrVector(&SV[k]); s->n = 0; }
@@ -387,8 +388,11 @@ static void op_strvector(vh_ctx *c)
   switch (vh_int(c, 0, 12)) {
     case 0: { size_t n = (size_t)vh_int(c, 0, 5); OP("S%zu.resize(%zu)", k, n); StrVectorResize(SV[k], n); s->n = n; for (i = 0; i < n; i++) s->v[i][0] = 0; OBSOP("strvector_resize"); break; }
     case 1: case 2: if (s->n < 20) { snprintf(buf, sizeof buf, "str-%.0f-%s", fresh(), vh_coin(c, 0.3) ? "a longer payload xx" : "x"); OP("S%zu.append", k); StrVectorAppend(SV[k], buf); strcpy(s->v[s->n++], buf); OBSOP("strvector_append"); } break;
-    case 3: if (s->n < 20) { int v = (int)vh_int(c, -99999, 99999); OP("S%zu.appendInt", k); StrVectorAppendInt(SV[k], v); snprintf(s->v[s->n++], 40, "%d", v); OBSOP("strvector_append_int"); } break;
-    case 4: if (s->n < 20) { double v = (double)vh_int(c, -999, 999) / 8.0; OP("S%zu.appendDouble", k); StrVectorAppendDouble(SV[k], v); snprintf(s->v[s->n++], 40, "%f", v); OBSOP("strvector_append_double"); } break;
+    case 3: if (s->n < 20) { int v = (int)vh_int(c, -99999, 99999); if (vh_coin(c, 0.1)) v = vh_coin(c, 0.5) ? 2147483647 : (-2147483647 - 1); OP("S%zu.appendInt", k); StrVectorAppendInt(SV[k], v); snprintf(s->v[s->n++], SVLEN, "%d", v); OBSOP("strvector_append_int"); } break;
+    case 4: if (s->n < 20) { double v = (double)vh_int(c, -999, 999) / 8.0;
+              /* any double is a valid argument: a fifth of the appends uses huge or tiny magnitudes ("%f" then prints up to 317 characters) and extreme ints */
+              if (vh_coin(c, 0.2)) { v = (vh_coin(c, 0.5) ? 1.0 : -1.0) * pow(10.0, vh_range(c, -30.0, 308.0)) * vh_range(c, 1.0, 9.9); OBSOP("strvector_append_double_extreme"); }
+              OP("S%zu.appendDouble", k); StrVectorAppendDouble(SV[k], v); snprintf(s->v[s->n++], SVLEN, "%f", v); OBSOP("strvector_append_double"); } break;
     case 5: if (s->n > 0) { size_t ix = (size_t)vh_int(c, 0, (long)s->n - 1); snprintf(buf, sizeof buf, "set-%.0f", fresh()); OP("S%zu.setStr(%zu)", k, ix); setStr(SV[k], ix, buf); strcpy(s->v[ix], buf); if (strcmp(getStr(SV[k], ix), buf)) { vh_fail(c, "strvector|get-after-set", "getStr differs"); g_bad = 1; } OBSOP("strvector_setget"); } break;
     case 6: { size_t a = (size_t)vh_int(c, 0, POOL - 1), d = (size_t)vh_int(c, 0, POOL - 1); if (SSV[a].live && d != k && d != a && s->n + SSV[a].n < 20) {
               strvector *e; OP("S%zu=extend(S%zu,S%zu)", d, k, a); e = StrVectorExtend(SV[k], SV[a]); if (SSV[d].live) DelStrVector(&SV[d]); SV[d] = e; SSV[d].live = 1; SSV[d].n = s->n + SSV[a].n;
@@ -399,7 +403,7 @@ static void op_strvector(vh_ctx *c)
               if (tok->size != 3 || strcmp(tok->data[0], "alpha") || strcmp(tok->data[2], "gamma")) { vh_fail(c, "strvector|split", "SplitString gave %zu tokens", tok->size); g_bad = 1; } DelStrVector(&tok); OBSOP("strvector_split"); break; }
     case 8: if (s->n <= 20) {     /* SplitString appends the tokens of a generated text to a live vector of the pool (empty or not) */
               static const char *seps[] = { "", ";", ",;", " ", ";\t|", ":" };
-              const char *sep = seps[vh_int(c, 0, 5)]; char text[48], tok[24][40], *ht, *hs; size_t nt, t;
+              const char *sep = seps[vh_int(c, 0, 5)]; char text[48], tok[24][SVLEN], *ht, *hs; size_t nt, t;
               gen_text(c, text, 39, sep); nt = model_split(text, sep, tok, 24);
               OP("S%zu.split(len=%zu,nsep=%zu,tokens=%zu,into n=%zu)", k, strlen(text), strlen(sep), nt, s->n);
               ht = heap_str(text); hs = heap_str(sep); SplitString(ht, hs, SV[k]);
